@@ -659,7 +659,7 @@ def check_pipeline(ctx):
             args = [norm(a) for a in c.args]
             is_compile = (isinstance(c.func, ast.Name) and c.func.id == "compile") or (args and args[0] == "compile")
             if is_compile:
-                if any("PyCF_ONLY_AST" in a for a in args):
+                if any("PyCF_ONLY_AST" in a for a in args) or any(k.arg == "flags" and "PyCF_ONLY_AST" in norm(k.value) for k in c.keywords):
                     stages.setdefault("parse", []).append((n, c))
                 else:
                     stages.setdefault("compile", []).append((n, c))
@@ -740,7 +740,7 @@ def check_all_returns_instrumented(ctx, tag="C10.7"):
             src = defs[0][1] if len(defs) == 1 and defs[0][2] is None else None
         if not isinstance(src, ast.Call):
             return None
-        args = [norm(a) for a in src.args]
+        args = [norm(a) for a in src.args] + [norm(k.value) for k in src.keywords if k.arg == "flags"]
         is_compile = (isinstance(src.func, ast.Name) and src.func.id == "compile") or (args and args[0] == "compile")
         after_visit = any(vn.id in dom[at.id] for vn in visits)
         if is_compile and after_visit and not any("PyCF_ONLY_AST" in a for a in args):
